@@ -3,7 +3,7 @@
    whose groups all pass their succinct checks is accepted, for any randomizers; and a batch is accepted only if no
    group's shape check or succinct check failed. *)
 From Coq Require Import List Arith NArith Bool Lia Field Ring.
-From PC Require Import Base.Field Base.Result Base.Poly Proofs.PolyFacts Schemes.LC Schemes.Marlin Schemes.IPA Proofs.LCFacts
+From PC Require Import Base.Field Base.Result Base.Poly Base.OrdMap Proofs.PolyFacts Schemes.LC Schemes.Marlin Schemes.MarlinLC Schemes.IPA Proofs.LCFacts
      Proofs.IPAFacts Proofs.IPAComplete Schemes.DefaultBatch Schemes.IPABatch.
 Import ListNotations.
 Open Scope F_scope.
@@ -65,3 +65,63 @@ Section IPABatchFacts.
     - right. exists r, h, n. reflexivity.
   Qed.
 End IPABatchFacts.
+
+(* ---------------- check_combinations: every combination is checked against its OWN combined commitment ---------------- *)
+Section IPALCFacts.
+  Context {FO : FieldOps}.
+
+  Definition osome {A} (o : option A) : bool := match o with Some _ => true | None => false end.
+
+  Lemma bound_policy_some num coeff pb cur b : MarlinLC.bound_policy num coeff pb cur = Ok b ->
+    match pb with Some d => b = Some d | None => b = cur end.
+  Proof.
+    unfold MarlinLC.bound_policy. destruct pb as [d|]; [|intros H; injection H as <-; reflexivity].
+    destruct (Nat.eqb num 1); [|discriminate]. destruct (feqb coeff f1); [|discriminate]. intros H. injection H as <-. reflexivity.
+  Qed.
+
+  (* the shifted part of a combined commitment is present exactly when the combination keeps a degree bound *)
+  Lemma verifier_loop_shape cm lab num : forall terms ev bound cc cs ev' b' cc' cs',
+    osome cs = osome bound ->
+    ilc_verifier_loop cm lab num terms ev bound cc cs = Ok (ev', b', cc', cs') ->
+    osome cs' = osome b'.
+  Proof.
+    induction terms as [|[coeff tm] terms IH]; intros ev bound cc cs ev' b' cc' cs' Hi H.
+    - cbn [ilc_verifier_loop] in H. injection H as _ <- _ <-. exact Hi.
+    - destruct tm as [|l]; cbn [ilc_verifier_loop] in H.
+      + exact (IH _ _ _ _ _ _ _ _ Hi H).
+      + destruct (OrdMap.lookup N.compare l cm) as [[ic bnd]|]; [|discriminate]. cbn [fst snd] in H.
+        destruct (Bool.eqb _ _) eqn:E; cbn [negb] in H; [|discriminate].
+        destruct (MarlinLC.bound_policy num coeff bnd bound) as [b| |] eqn:Eb; cbn [bind] in H; try discriminate.
+        apply (IH _ _ _ _ _ _ _ _) in H; [exact H|].
+        pose proof (bound_policy_some _ _ _ _ _ Eb) as Hb. apply Bool.eqb_prop in E.
+        destruct bnd as [d|]; destruct (ic_shifted ic) as [sc|]; cbn in E; try discriminate; subst b; cbn [comb_opt_g osome].
+        * destruct cs; reflexivity.
+        * exact Hi.
+  Qed.
+
+  (* the labelled commitment the verifier would build for one combination on its own *)
+  Definition own_lcomm (cm : list (N * (IComm * option nat))) (lc0 : N * lc) (entry : N * (IComm * option nat)) : Prop :=
+    exists evi evo b cc cs,
+      ilc_verifier_loop cm (fst lc0) (length (snd lc0)) (snd lc0) evi None [] None = Ok (evo, b, cc, cs) /\
+      entry = (fst lc0, ({| ic_comm := cc; ic_shifted := cs |}, b)).
+
+  (* whatever the commitments are: when the verifier's combination step succeeds, the flat element list is read back
+     without any shift - the i-th labelled commitment is the one computed for the i-th combination *)
+  Theorem check_combinations_aligned cm : forall lcs ev info flat ev',
+    ilc_verifier_all cm lcs ev = Ok (info, flat, ev') ->
+    exists lcm, construct_lcomms info flat = Ok lcm /\ Forall2 (own_lcomm cm) lcs lcm.
+  Proof.
+    induction lcs as [|[lab terms] lcs IH]; intros ev info flat ev' H.
+    - cbn [ilc_verifier_all] in H. injection H as <- <- _. exists []. split; [reflexivity|constructor].
+    - cbn [ilc_verifier_all] in H.
+      destruct (ilc_verifier_loop cm lab (length terms) terms ev None [] None) as [[[[ev1 b] cc] cs]| |] eqn:El; cbn [bind] in H; try discriminate.
+      destruct (ilc_verifier_all cm lcs ev1) as [[[info0 flat0] ev2]| |] eqn:Ea; cbn [bind] in H; try discriminate.
+      injection H as <- <- _.
+      destruct (IH _ _ _ _ Ea) as (lcm0 & Ec & Hf).
+      pose proof (verifier_loop_shape cm lab (length terms) terms ev None [] None ev1 b cc cs eq_refl El) as Hs.
+      exists ((lab, ({| ic_comm := cc; ic_shifted := cs |}, b)) :: lcm0). split.
+      + cbn [construct_lcomms]. unfold flat_of.
+        destruct b as [d|]; destruct cs as [x|]; cbn in Hs; try discriminate; cbn [app]; rewrite Ec; reflexivity.
+      + constructor; [|exact Hf]. exists ev, ev1, b, cc, cs. split; [exact El|reflexivity].
+  Qed.
+End IPALCFacts.
